@@ -356,6 +356,80 @@ mod verif_nx_pipeline {
         assert!(failing.is_empty(), "OB pipeline/limit_not_style_after_reflow: a result for a wider limit that already fits the narrower limit is also the result for the narrower limit, and widening never adds lines - also for lines wrapped a second time after a multi-line string was re-indented\n failing cases ({}):\n{}", failing.len(), failing.join("\n"));
     }
 
+    // C15 on inputs the enumerations above do not reach: blanks longer than one byte (U+3000) that are reproduced verbatim in
+    // front of an ignored token while the text before them changes length, and multi-line tokens with very long lines / very
+    // many lines (positions are kept as byte and line counts).
+    #[test]
+    fn verif_nx_pipeline_cursor_special() {
+        let cfg = leak(config(false, 2, 2, false, 120, false));
+        let mut n = 0u64;
+        for prefix in ["a:=b;", "a  :=  b;", "a := b;", "a:=b  ;", ""] {
+            for ws in ["\u{3000}", "\u{3000}\u{3000}", " \u{3000}", "\u{3000} ", " \u{3000} \u{3000}", "\u{3000}\t\u{3000}"] {
+                for opener in [" {pasfmt off}", "\n{pasfmt off}", " // pasfmt off\n"] {
+                    let s = format!("{prefix}{opener}{ws}x  :=  1;{ws}y;\n");
+                    let cursors: Vec<u32> = (0..=s.len() as u32 + 1).filter(|&c| c as usize > s.len() || s.is_char_boundary(c as usize)).collect();
+                    let (out, cs) = fmt(cfg, &s, cursors.clone());
+                    for (i, c) in cs.iter().enumerate() {
+                        assert!((*c as usize) <= out.len() && out.is_char_boundary(*c as usize), "OB pipeline/cursor_within_output: every reported cursor lies within the output on a character boundary\n input={:?} cursor={} got={} output={:?}", s, cursors[i], c, out);
+                        n += 1;
+                    }
+                }
+            }
+        }
+        // already formatted texts (output == input): every cursor keeps its offset
+        let long_line = "x".repeat(70_000);
+        let many_lines = "x\n".repeat(70_000);
+        let texts = [
+            format!("{{\n{long_line}\n}}\na := 1;\n"),
+            format!("{{\n{many_lines}}}\na := 1;\n"),
+            format!("a :=\n    '''\n    {long_line}\n    ''';\n"),
+            format!("a :=\n    '''\n{}    ''';\n", "    x\n".repeat(70_000)),
+        ];
+        for t in &texts {
+            let cursors: Vec<u32> = vec![0, 2, 3, 9, 17, 18, 70_001, 70_010, 140_000, t.len() as u32 - 3, t.len() as u32];
+            let cursors: Vec<u32> = cursors.into_iter().filter(|&c| (c as usize) <= t.len()).collect();
+            let (out, cs) = fmt(cfg, t, cursors.clone());
+            assert!(&out == t, "NX self-check: the text is already formatted (first 60 bytes of the output: {:?})", &out[..60.min(out.len())]);
+            for (i, c) in cs.iter().enumerate() {
+                assert!(*c == cursors[i], "OB pipeline/cursor_same_offset_unchanged_token: a cursor inside or at the end of a token whose text is unchanged keeps its offset inside that token\n input: {} bytes starting {:?}\n cursor={} got={}", t.len(), &t[..24], cursors[i], c);
+                n += 1;
+            }
+        }
+        println!("NX pipeline_cursor_special: {} cases", n);
+        assert!(n > 1_500, "enumeration ran");
+    }
+
+    // C03 on the same family: formatting the result again changes nothing.  All failing inputs are collected (see above).
+    #[test]
+    fn verif_nx_pipeline_reflow_idempotent() {
+        let mut texts: Vec<String> = Vec::new();
+        for ind in [0usize, 6, 10, 14, 22, 34, 40] {
+            for args in ["aaaaaaaa, b", "aa, b", "aaaaaaa, bbbbbbb, ccccccc"] {
+                let sp = " ".repeat(ind);
+                let lit = format!("'''\n{sp}text\n{sp}'''.Replace({args});");
+                texts.push(format!("procedure P;\nbegin\n  B := {lit}\n  Foo;\nend;"));
+                texts.push(format!("procedure P;\nbegin\n  if A then\n    X := {lit}\nend;"));
+                texts.push(format!("procedure P;\nbegin\n  A := procedure\n    begin\n      B := {lit}\n      Foo;\n    end;\nend;"));
+            }
+        }
+        let mut n = 0u64;
+        let mut failing: Vec<String> = Vec::new();
+        for p in &texts {
+            for limit in 20..=80u32 {
+                let cfg = leak(config(false, 2, 2, false, limit, false));
+                let (o, _) = fmt(cfg, p, Vec::new());
+                let (again, _) = fmt(cfg, &o, Vec::new());
+                if again != o {
+                    failing.push(format!("case=not_idempotent limit={} input={:?}", limit, p));
+                }
+                n += 1;
+            }
+        }
+        println!("NX pipeline_reflow_idempotent: {} cases", n);
+        assert!(n > 3_000, "enumeration ran");
+        assert!(failing.is_empty(), "OB pipeline/idempotent_after_reflow: formatting the formatter's own output changes nothing - also for lines wrapped a second time after a multi-line string was re-indented\n failing cases ({}):\n{}", failing.len(), failing.join("\n"));
+    }
+
     // C09 third clause: the line endings of the INPUT do not matter (inputs without line-spanning tokens), also for
     // malformed lines such as an unterminated literal or a comment at the end of a line
     #[test]
